@@ -47,6 +47,14 @@ func init() {
 		json.Unmarshal(raw, &cs)
 		return c14After([]string{"%5d|", "%-12.3f|", "%+x|", "%#v|", "%08.2f|", "%*d|", "% d|", "%.7s|"}[cs.First], cs.D)
 	}
+	replayers["C14/after-kind"] = func(c *Ctx, raw json.RawMessage) string {
+		var cs struct {
+			Operand int
+			D       Directive
+		}
+		json.Unmarshal(raw, &cs)
+		return c14AfterKind(cs.Operand, cs.D)
+	}
 	replayers["C14/after-element"] = func(c *Ctx, raw json.RawMessage) string {
 		var cs struct {
 			Container int
@@ -323,6 +331,55 @@ func c14AfterElement(ci int, d Directive) string {
 	return ""
 }
 
+// c14AfterKind: as c14AfterElement, with EVERY operand of c14Operands (each basic kind with its extremes, named
+// types, nil pointers, composites) as the one element before the formatter - in a slice, in a struct, and as the
+// preceding operand of Sprint. Each kind has its own formatting routine with its own save/restore of the flags.
+func c14AfterKind(oi int, d Directive) string {
+	if d.Verb == 'T' || d.Verb == 'p' {
+		return ""
+	}
+	f, stars := d.Format()
+	pred := c14Operands[oi]
+	for name, mk := range map[string]func(st *fstate) interface{}{
+		"Formatter":     func(st *fstate) interface{} { return recFormatter{st} },
+		"SafeFormatter": func(st *fstate) interface{} { return recSafeFormatter{st} },
+	} {
+		run := func(arg interface{}) {
+			recoverTo(func() { redact.Sprintf(f, append(append([]interface{}{}, stars...), arg)...) })
+		}
+		var alone, inSlice, inStruct fstate
+		run([]interface{}{mk(&alone)})
+		run([]interface{}{pred, mk(&inSlice)})
+		run(c14Pair{pred, mk(&inStruct)})
+		for _, in := range []struct {
+			where string
+			st    *fstate
+		}{{"a slice", &inSlice}, {"a struct", &inStruct}} {
+			if alone.Called != in.st.Called || (alone.Called && (alone.key() != in.st.key() || alone.Fmt != in.st.Fmt)) {
+				return fmt.Sprintf("redact/%s: directive %s: formatter alone in a slice sees state %s (MakeFormat=%q); after the element %T(%v) in %s it sees %s (MakeFormat=%q)", name, d, alone.key(), alone.Fmt, pred, descVal(pred), in.where, in.st.key(), in.st.Fmt)
+			}
+		}
+		if d.Verb == 'v' && d.Flags == 0 && d.Wid == 0 && d.Prec == 0 && d.FlagStr == "" {
+			var a1, a2 fstate
+			recoverTo(func() { redact.Sprint(mk(&a1)) })
+			recoverTo(func() { redact.Sprint(pred, mk(&a2), 1) })
+			if a1.Called != a2.Called || a1.key() != a2.key() || a1.Fmt != a2.Fmt {
+				return fmt.Sprintf("redact/%s: Sprint(x) shows the formatter state %s (MakeFormat=%q); Sprint(%T(%v), x, 1) shows %s (MakeFormat=%q)", name, a1.key(), a1.Fmt, pred, descVal(pred), a2.key(), a2.Fmt)
+			}
+		}
+	}
+	return ""
+}
+
+func descVal(v interface{}) (s string) {
+	defer func() {
+		if recover() != nil {
+			s = "?"
+		}
+	}()
+	return fmt.Sprintf("%.40q", fmt.Sprintf("%v", v))
+}
+
 // c14NestedPrint: a SafeFormat method reached under the directive d hands a recorder to the SafePrinter it was
 // given - with Print (one operand, several operands) and with Printf under an inner directive. What the recorder
 // sees is the bare %v for Print and the INNER directive for Printf; the outer directive does not leak in.
@@ -532,6 +589,20 @@ func checkC14(c *Ctx) {
 			w.Eval()
 			if dt := c14AfterElement(ci, d); dt != "" {
 				w.Fail("after-element", map[string]interface{}{"Container": ci, "D": d}, dt)
+			}
+		}
+		w.Seen(uint64(i))
+	})
+	mid := sp
+	if c.Quick() {
+		mid = quickDirectives()
+	}
+	c.Section("C14/after-kind", map[string]interface{}{"directives": mid.Size(), "preceding_operands": len(c14Operands), "places": "slice element, struct field, Sprint operand", "recorders": "Formatter, SafeFormatter"}, mid.Size(), func(i int, w *Worker) {
+		d := mid.Get(i)
+		for oi := range c14Operands {
+			w.Eval()
+			if dt := c14AfterKind(oi, d); dt != "" {
+				w.Fail("after-kind", map[string]interface{}{"Operand": oi, "D": d}, dt)
 			}
 		}
 		w.Seen(uint64(i))
